@@ -2,7 +2,7 @@
 from .terms import Tm
 
 PRESERVING = {"iter", "into_iter", "iter_mut", "enumerate", "map", "cloned", "copied", "peekable", "zip", "chain",
-              "inspect", "by_ref", "chars", "char_indices", "bytes", "into_values", "values", "keys"}
+              "inspect", "by_ref", "once", "empty", "chars", "char_indices", "bytes", "into_values", "values", "keys"}
 CARD_CHANGING = {"filter", "filter_map", "flat_map", "flatten", "skip", "take", "skip_while", "take_while",
                  "step_by", "map_while"}
 ORDER_CHANGING = {"rev", "sorted", "sorted_by", "sorted_by_key"}
